@@ -198,7 +198,7 @@ pub fn gen_spec(t: &mut Tape, name: &str) -> (Spec, GenInfo) {
 // C14: colliding pairs and their twins
 // -------------------------------------------------------------------------------------------------
 
-pub const COLLISION_KINDS: [&str; 11] = [
+pub const COLLISION_KINDS: [&str; 12] = [
     "identical spelling",
     "short form written out",
     "long form in upper case",
@@ -210,6 +210,7 @@ pub const COLLISION_KINDS: [&str; 11] = [
     "query twin of a colliding command",
     "same long form, different short forms",
     "long form of one is the short form of the other",
+    "same-kind pair separated by a declaration of the other kind",
 ];
 
 fn render_nodes(nodes: &[(String, bool)], query: bool) -> String {
@@ -314,6 +315,10 @@ pub fn gen_ambiguous(t: &mut Tape, name: &str) -> Option<Ambiguous> {
             let v2 = format!("{}{}", &up[..cut2], up[cut2..].to_ascii_lowercase());
             (format!("{}:{}{}", v1, b, q), format!("{}:{}{}", v2, b, q), format!("{}Z:{}{}", v2, b, q), true)
         }
+        11 => {
+            // command, query, command on one node (or the mirror): the middle declaration is added below
+            (format!("{}:{}{}", a_l, b, q), format!("{}:{}{}", a_l, b, q), format!("{}:{}{}", a_l, c, q), false)
+        }
         _ => {
             // ABCDef (short ABCD) vs ABcd (long ABCD)
             let up = a.to_ascii_uppercase();
@@ -342,6 +347,13 @@ pub fn gen_ambiguous(t: &mut Tape, name: &str) -> Option<Ambiguous> {
         twin.decls.push(d);
         amb.decls.len() - 1
     };
+    if kind_idx == 11 {
+        // the other kind on the same node, declared between the two colliding declarations
+        let other = if query { format!("{}:{}", a_l, b) } else { format!("{}:{}?", a_l, b) };
+        let d = mk(&other, t);
+        amb.decls.push(d.clone());
+        twin.decls.push(d);
+    }
     if Model::build(&amb).is_err() {
         return None; // base + first already collide: not the shape we want
     }
@@ -352,7 +364,7 @@ pub fn gen_ambiguous(t: &mut Tape, name: &str) -> Option<Ambiguous> {
         d2t.ret = if d2t.cmd.ends_with('?') { QUERY_RETS[0]() } else { RetTy::None };
     }
     // position of the second declaration: before or after the first
-    if i1 != usize::MAX && t.chance(1, 2) {
+    if i1 != usize::MAX && kind_idx != 11 && t.chance(1, 2) {
         amb.decls.insert(i1, d2);
         twin.decls.insert(i1, d2t);
     }
